@@ -3695,6 +3695,10 @@ where
                         Some(track_offset) => {
                             // work-in-progress track has offset,
                             // so deduct that offset from this index point's
+                            // (which must come after the track's first)
+                            if !offset.is_next(track_offset) {
+                                return Err(CuesheetError::IndexPointsOutOfSequence);
+                            }
 
                             cuesheet::Index {
                                 number,
